@@ -74,7 +74,7 @@ def meta(tier):
                 '##PLACEHOLDER## survives in any file, each configured word is matched in full by the pattern of its own category '
                 '(case-insensitively for mnemonics, macros and registers), no near-miss identifier (word+x, x+word, word+_, word with '
                 '"." replaced by a letter, a word of another category) is matched by a category it does not belong to, and every '
-                'directive / preprocessor / function keyword is matched by its pattern; for every third vocabulary the previous vocabulary is generated into the '
+                'directive / preprocessor / function keyword is matched by its pattern; the generators run at logging verbosity 0..3 in rotation; for every third vocabulary the previous vocabulary is generated into the '
                 'same directory first (an upgrade of the definition) and the packages found afterwards must be those of the later one; non-trivial = vocabulary with >=2 words in one '
                 'category or a word containing "." or "_"; distinct by construction',
         'bounds': {'mnemonics': MNEMONICS, 'macros': MACROS, 'registers': REGISTERS, 'predefined': PREDEFINED},
@@ -306,7 +306,7 @@ def inspect_sublime(root, vocab, context=True):
 
 # ---- generation ------------------------------------------------------------------------------------------------------
 
-def generate_inproc(isa, target, root):
+def generate_inproc(isa, target, root, verbose=0):
     world._load()
     from bespokeasm.configgen.vscode import VSCodeConfigGenerator
     from bespokeasm.configgen.sublime import SublimeConfigGenerator
@@ -317,11 +317,14 @@ def generate_inproc(isa, target, root):
     os.makedirs(out, exist_ok=True)
     world.reset_globals()
     cls = VSCodeConfigGenerator if target == 'vscode' else SublimeConfigGenerator
-    cls(cfg, 0, out, None, None, None).generate()
+    import contextlib
+    import io
+    with contextlib.redirect_stdout(io.StringIO()):
+        cls(cfg, verbose, out, None, None, None).generate()
     return out
 
 
-def generate_cli(isa, target, root):
+def generate_cli(isa, target, root, verbose=0):
     cfg = os.path.join(root, 'isa.json')
     with open(cfg, 'w') as f:
         json.dump(isa, f)
@@ -329,14 +332,14 @@ def generate_cli(isa, target, root):
     os.makedirs(out, exist_ok=True)
     env = {k: v for k, v in os.environ.items() if not k.startswith('BESPOKEASM_')}
     env['PYTHONPATH'] = world.SRC
-    p = subprocess.run([world.PYTHON, '-m', 'bespokeasm', 'generate-extension', target, '-c', cfg, '-d', out],
+    p = subprocess.run([world.PYTHON, '-m', 'bespokeasm', 'generate-extension', target, '-c', cfg, '-d', out] + ['-v'] * verbose,
                        capture_output=True, text=True, env=env, timeout=120)
     if p.returncode != 0:
         raise RuntimeError(f'generate-extension exited with {p.returncode}: {(p.stderr.strip().splitlines() or [""])[-1]}')
     return out
 
 
-def examine(isa, target, vocab, gen, before=None, context=True):
+def examine(isa, target, vocab, gen, before=None, context=True, verbose=0):
     """before: an earlier revision of the definition (same language name) generated into the same directory first; the packages
     found there afterwards must be those of `isa`."""
     root = tempfile.mkdtemp(prefix='bespokeverif_c20_', dir='/dev/shm' if os.path.isdir('/dev/shm') else None)
@@ -344,7 +347,7 @@ def examine(isa, target, vocab, gen, before=None, context=True):
         try:
             if before is not None:
                 gen(before, target, root)
-            out = gen(isa, target, root)
+            out = gen(isa, target, root, verbose)
         except SystemExit as e:
             return [f'generator exited: {e.code}']
         except Exception as e:
@@ -390,10 +393,11 @@ def shard(acc, tier, idx, n):
                         continue
                     isa = make_isa(*vocab)
                     for target in ('vscode', 'sublime'):
-                        probs = examine(isa, target, vocab, generate_inproc, context=in_context)
+                        verbose = ctr % 4 if in_context else 0          # the logging verbosity (-v .. -vvv) never changes what is generated
+                        probs = examine(isa, target, vocab, generate_inproc, context=in_context, verbose=verbose)
                         acc.count_eval(1, 'OK' if not probs else 'PROBLEM')
                         if probs:
-                            spec = {'target': target, 'vocab': [list(v) for v in vocab]}
+                            spec = {'target': target, 'vocab': [list(v) for v in vocab], 'verbose': verbose}
                             finding = None
                             acc.violation([{'isa': isa, 'target': target}], spec, f'{target} {vocab}: {probs[0]}', [{'problems': probs[:5]}],
                                           finding=finding)
@@ -422,5 +426,5 @@ def confirm(viol):
     spec = viol['spec']
     c = viol['cases'][0]
     vocab = tuple(tuple(v) for v in spec['vocab'])
-    probs = examine(c['isa'], spec['target'], vocab, generate_cli, before=spec.get('before'))
+    probs = examine(c['isa'], spec['target'], vocab, generate_cli, before=spec.get('before'), verbose=spec.get('verbose', 0))
     return (probs[0] if probs else None), [{'problems': probs[:5]}]
